@@ -84,7 +84,7 @@ class DictArray(StorageBase):
                         arr = np.asarray(self._dict[external_key])
                         value = arr[internal_key]
                     else:
-                        value = self._internal_mask()[internal_key]
+                        value = np.ma.masked
                 else:  # noqa: PLR5501
                     if external_key in self._dict:
                         value = self._dict[external_key]
@@ -105,7 +105,7 @@ class DictArray(StorageBase):
         if external_key in self._dict:
             data = self._dict[external_key]
         else:
-            return self._internal_mask()
+            return np.ma.masked
         if internal_key:
             arr = np.asarray(data)
             return arr[internal_key]
